@@ -166,23 +166,43 @@ Proof.
 Qed.
 Print Assumptions C17_n_centroids.
 
-(* every read of .centroids, after any history of setter calls and earlier reads, returns the centroids of the
-   attributes as they are at that moment (the _centroids cache is never stale) *)
+(* every read of .centroids, after any history of API CALLS (setters and earlier reads) on a fresh object, returns the
+   centroids of the attributes as they are at that moment (the _centroids cache is never stale).
+   SCOPE: histories are sequences of calls of the public setters / getters.  Two routes that are not calls are excluded by
+   the [*_api] hypotheses and handled separately: (1) writing INTO an array a getter handed out: `origin["x"] = v` is modelled
+   (ops BmOriginX / GOriginX / OOriginX) and REFUTED below; (2) `c = obj.centroids; c[:] = 99` overwrites the cached array
+   itself (the getter returns the cache, not a copy): not modelled, the model's reads return values. *)
 Theorem C17_cache_coherent : forall (rotm dipm : Q -> V3 -> V3),
-  (forall b ops, bm_cache b = None ->
+  (forall b ops, Forall bm_api ops -> bm_cache b = None ->
      snd (bm_run rotm b (ops ++ [BmRead])) = snd (bm_run rotm b ops) ++ [bm_compute rotm (bm_attrs_after rotm b ops)])
-  /\ (forall g ops, g_cache g = None ->
+  /\ (forall g ops, Forall g_api ops -> g_cache g = None ->
      snd (g_run rotm dipm g (ops ++ [GRead]))
      = snd (g_run rotm dipm g ops) ++ [g_compute rotm dipm (g_attrs_after rotm dipm g ops)])
-  /\ (forall o ops, o_cache o = None ->
+  /\ (forall o ops, Forall o_api ops -> o_cache o = None ->
      snd (o_run rotm o (ops ++ [ORead])) = snd (o_run rotm o ops) ++ [o_compute rotm (o_attrs_after rotm o ops)]).
 Proof.
   intros rotm dipm. split; [|split].
-  - intros b ops H. apply bm_history_read. left. exact H.
-  - intros g ops H. apply g_history_read. left. exact H.
-  - intros o ops H. apply o_history_read. left. exact H.
+  - intros b ops Ha H. apply bm_history_read; [exact Ha|]. left. exact H.
+  - intros g ops Ha H. apply g_history_read; [exact Ha|]. left. exact H.
+  - intros o ops Ha H. apply o_history_read; [exact Ha|]. left. exact H.
 Qed.
 Print Assumptions C17_cache_coherent.
+
+(* the same statement without the API restriction *)
+Definition C17_cache_coherent_full : Prop := forall (rotm : Q -> V3 -> V3) b ops, bm_cache b = None ->
+  snd (bm_run rotm b (ops ++ [BmRead])) = snd (bm_run rotm b ops) ++ [bm_compute rotm (bm_attrs_after rotm b ops)].
+
+(* REFUTED: read, then `bm.origin["x"] = 5` (accepted: refused = false), then read: the object reports origin (5, 0, 0) but
+   hands out the centroids of the old origin (open finding origin-inplace-stale; the same holds for Grid2D and Octree) *)
+Theorem C17_origin_inplace_refuted : ~ C17_cache_coherent_full.
+Proof.
+  intros H.
+  specialize (H (fun _ p => p)
+                {| bm_origin := Some (0, 0, 0)%Q; bm_rotation := 0%Q; bm_du := [0; 1]%Q; bm_dv := [0; 1]%Q; bm_dz := [0; 1]%Q;
+                   bm_cache := None |} [BmRead; BmOriginX false 5%Q] eq_refl).
+  vm_compute in H. discriminate.
+Qed.
+Print Assumptions C17_origin_inplace_refuted.
 
 (* drape model: a well-formed model (prism p owns layers [first, first+count), in order, no gap) has one centre per layer *)
 Theorem C17_drape_n_centroids : forall prisms bottoms,
